@@ -151,6 +151,15 @@ ADDED['C11'] += ' A per-operation registration in a shared collection is removed
 ADDED['C07'] += ' Initialisation bodies that take ids are seeded first; a quarantined blob keeps its own file name.'
 ADDED['C15'] += ' A quarantined blob keeps its own file name (its id stays countable).'
 
+ADDED['C05'] += ' The validation flag is traced through parameters to every caller (no constant `false`, no per-blob condition).'
+ADDED['C11'] += ' The configured data-validation flag reaches every blob opened at start-up.'
+ADDED['C02'] += ' Whether a lookup is restricted by metadata depends on Some / None only (an empty map is a map).'
+ADDED['C10'] += ' A grouped walk over the words of a bit vector handles the remainder; push of the closed-blob tree counts slots.'
+ADDED['C12'] += ' The dirty-byte level reported by a write / delete is read after the append.'
+ADDED['C13'] += ' push of the closed-blob tree counts slots, never occupied children.'
+ADDED['C14'] += ' No shared atomic counter is raised before and lowered after a suspension point by plain statements of a client-cancellable body.'
+ADDED['C16'] += ' Meta::from_raw answers only with what the deserializer produced.'
+
 for _k, _v in ADDED.items():
     _t = CHECKS[_k]
     CHECKS[_k] = (_t[0] + _v, _t[1], _t[2])
